@@ -38,7 +38,10 @@ def strategy(tier):
     names = sorted(RECIPES)
 
     def one(name):
-        return st.fixed_dictionaries({"recipe": st.just(name), "opts": RECIPES[name].opts(tier), "payload_seed": SEED})
+        return st.fixed_dictionaries({"recipe": st.just(name), "opts": RECIPES[name].opts(tier), "payload_seed": SEED,
+                                      # magnitude of the seeds: the adjoint is linear in them, so tiny (1e-10) and
+                                      # huge seeds must back-propagate as exactly, relative to their size, as O(1) ones
+                                      "seed_scale": st.sampled_from([1.0, 1.0, 1.0, 1.0, 1e-10, 1e-13, 1e8])})
     return st.sampled_from(names).flatmap(one)
 
 
@@ -107,6 +110,10 @@ def check_case(case):
         ws = b.seeds(rng, ys)
         if all(w is None for w in ws):
             continue
+        ssc = float(case.get("seed_scale", 1.0))
+        if ssc != 1.0:
+            ws = [None if w is None else w * ssc for w in ws]
+            labels.append(f"seed_scale_{ssc:g}")
         try:
             g = adj.analytic(b, ws)
         except Exception as e:
